@@ -1,17 +1,159 @@
 import LexVerif.Spec.Decimal
+import LexVerif.Props.TablesParse
+import LexVerif.Proof.FastPathExact
+import LexVerif.Proof.BinaryCorrect
 /-!
 # C05 — non-decimal radix string→float parsing is correctly rounded (property theorems)
 
 Oracle: `Spec.litBits` with mantissa radix `r` and exponent base `b`. Table theorems for all 35 radices
 are in `Props/TablesParse.lean`.
+
+Algorithm level (models `Model.FastPath`, `Model.Binary`; tie: component ops `fp`, `bin`, `sbin`):
+
+* `fastPath_exact_radix` — **complete**, all 35 radices, both float types, `radix` and `compact` builds;
+* `binary_correct` — **complete** for the model's `binary` (power-of-two radices and mixed bases), with the
+  exclusion `MarkerOk` that mirrors a defect of the code (`binary_marker_overflow_witness`: the invalid
+  marker `power2 + INVALID_FP` is not negative once `power2 ≥ 32768`; API-level input: radix 2,
+  `1` `0`×52 `1` `0`×10 `1` `e` `1001110001000000` (= 40000) parses to `0x8740000000000400` instead of `+∞`);
+* `binary_decides` — without `many_digits` (or with `lossy`) `binary` always returns a valid float;
+* `slowBinary_correct` — the full statement of the truncated case, a `Prop` (not proved here).
 -/
 namespace LexVerif.Props.C05
-open LexVerif.Spec
+open LexVerif.Spec LexVerif.Model LexVerif.Proof.Tables
+open LexVerif.Proof.RoundNE LexVerif.Proof.ExtRound LexVerif.Proof.FastPathExact LexVerif.Proof.BinaryCorrect
+open LexVerif.Props.TablesParse
 
 /-- the oracle's result never depends on the exponent once the mantissa digits are all zero -/
 theorem litBits_zero_any_radix (f : Fmt) (r b : Nat) (l : FloatLit)
     (h : ofDigits r (l.intDigits ++ l.fracDigits) = 0) :
     litBits f r b l = if l.neg then f.signBit else 0 := by
   unfold litBits; simp [h]
+
+/-! ## fast path, every radix -/
+
+def IsRadixSet (S : SmallSet) : Prop := S = SmallSet.Radix ∨ S = SmallSet.CompactRadix
+
+theorem fastTables_radix {S : SmallSet} (hS : IsRadixSet S) {r : Nat} (hr : r ∈ S.radices) :
+    FastTables S f64 r ∧ FastTables S f32 r := by
+  have lim64 : ∀ {S : SmallSet}, (∀ r ∈ S.radices, (limitsOk S f32 r && limitsOk S f64 r) = true) →
+      ∀ r ∈ S.radices, limitsOk S f64 r = true := fun h r hr => by
+    have := h r hr; simp only [Bool.and_eq_true] at this; exact this.2
+  have lim32 : ∀ {S : SmallSet}, (∀ r ∈ S.radices, (limitsOk S f32 r && limitsOk S f64 r) = true) →
+      ∀ r ∈ S.radices, limitsOk S f32 r = true := fun h r hr => by
+    have := h r hr; simp only [Bool.and_eq_true] at this; exact this.1
+  rcases hS with h | h <;> subst h
+  · have hri : r ∈ SmallSet.Radix.intRadices := by
+      have : SmallSet.Radix.intRadices = SmallSet.Radix.radices := by decide
+      rw [this]; exact hr
+    have hpos : 0 < r := by
+      have : ∀ x ∈ SmallSet.Radix.radices, 0 < x := by decide
+      exact this r hr
+    exact ⟨⟨(small_f64_powers_radix r hr).2, lim64 limits_ok_radix r hr,
+        fun e he => ((small_int_powers_radix r hri).2.2 e he).1, hpos⟩,
+      ⟨(small_f32_powers_radix r hr).2, lim32 limits_ok_radix r hr,
+        fun e he => ((small_int_powers_radix r hri).2.2 e he).1, hpos⟩⟩
+  · have hri : r ∈ SmallSet.CompactRadix.intRadices := by
+      have : SmallSet.CompactRadix.intRadices = SmallSet.CompactRadix.radices := by decide
+      rw [this]; exact hr
+    have hpos : 0 < r := by
+      have : ∀ x ∈ SmallSet.CompactRadix.radices, 0 < x := by decide
+      exact this r hr
+    exact ⟨⟨(small_f64_powers_compact r hr).2, lim64 limits_ok_compact r hr,
+        fun e he => ((small_int_powers_compact r hri).2.2 e he).1, hpos⟩,
+      ⟨(small_f32_powers_compact r hr).2, lim32 limits_ok_compact r hr,
+        fun e he => ((small_int_powers_compact r hri).2.2 e he).1, hpos⟩⟩
+
+/-- **`fastPath_exact`, every radix**: whenever `try_fast_path` answers `Some(v)` for a radix-`r` number
+(`r ∈ 2..=36`; the answer is `None` when the exponent base differs from the mantissa radix), `v` is the
+correctly rounded, signed value of `mantissa · r^exponent`. -/
+theorem fastPath_exact_radix_f64 {S : SmallSet} (hS : IsRadixSet S) {r : Nat} (hr : r ∈ S.radices)
+    (expBase : Nat) (n : Num) (v : Nat) (h : FastPath.tryFastPath S FTy.f64 r expBase n = .some v) :
+    v = roundSigned f64 n.isNegative (powFrac r n.exponent n.mantissa).1 (powFrac r n.exponent n.mantissa).2 :=
+  LexVerif.Proof.FastPathExact.fastPath_exact layout_f64 (fastTables_radix hS hr).1 expBase n v h
+
+theorem fastPath_exact_radix_f32 {S : SmallSet} (hS : IsRadixSet S) {r : Nat} (hr : r ∈ S.radices)
+    (expBase : Nat) (n : Num) (v : Nat) (h : FastPath.tryFastPath S FTy.f32 r expBase n = .some v) :
+    v = roundSigned f32 n.isNegative (powFrac r n.exponent n.mantissa).1 (powFrac r n.exponent n.mantissa).2 :=
+  LexVerif.Proof.FastPathExact.fastPath_exact layout_f32 (fastTables_radix hS hr).2 expBase n v h
+
+/-- the mixed-base guard (/repo commit 5add295): no native fast path when the exponent base differs -/
+theorem fastPath_mixed_base_none (S : SmallSet) (F : FTy) {r b : Nat} (h : r ≠ b) (n : Num) :
+    FastPath.tryFastPath S F r b n = .none := by
+  unfold FastPath.tryFastPath; rw [if_pos h]
+
+/-- non-vacuity: radix 3 (`12345·3^10`), radix 36 disguised, radix 16 division; `1.8p3`-style mixed base declines -/
+example : FastPath.tryFastPath SmallSet.Radix FTy.f64 3 3 ⟨12345, 10, false, false⟩ = .some 0x41c5b985d0800000 ∧
+    FastPath.tryFastPath SmallSet.Radix FTy.f64 16 2 ⟨24, 3, false, false⟩ = .none ∧
+    (3 ∈ SmallSet.Radix.radices ∧ 36 ∈ SmallSet.CompactRadix.radices) := by
+  decide +kernel
+
+/-! ## power-of-two radices -/
+
+def IsPow2 (b : Nat) : Prop := b = 2 ∨ b = 4 ∨ b = 8 ∨ b = 16 ∨ b = 32
+
+/-- exponents `parse_number` can hand over without saturating `calculate_power2` (it saturates literal
+exponents at `±2^28`; beyond `±2^27` in radix 32 `calculate_power2` clamps and the answer is 0 / ∞) -/
+def ExpInRange (e : Int) : Prop := -(2 ^ 27 : Int) ≤ e ∧ e ≤ (2 ^ 27 : Int)
+
+/-- **`binary_correct`**: a valid answer of `binary::<f64, FORMAT>` (any power-of-two exponent base, `lossy`
+and `many_digits` arbitrary) is `roundNE (mantissa · base^exponent)`: shifting, the half-way/even test,
+denormals, underflow to zero, overflow to infinity. -/
+theorem binary_correct_f64 {base : Nat} (hb : IsPow2 base) (n : Num) (lossy : Bool)
+    (hm : n.mantissa < 2 ^ 64) (he : ExpInRange n.exponent) (hmk : MarkerOk FTy.f64 base n)
+    {fp : ExtendedFloat80} (h : Binary.binary FTy.f64 base n lossy = .ok fp) (hv : 0 ≤ fp.exp) :
+    extendedToFloat FTy.f64 fp =
+      roundNE f64 (powFrac base n.exponent n.mantissa).1 (powFrac base n.exponent n.mantissa).2 :=
+  binary_exact layout_f64 hb n lossy hm he.1 he.2 hmk h hv
+
+theorem binary_correct_f32 {base : Nat} (hb : IsPow2 base) (n : Num) (lossy : Bool)
+    (hm : n.mantissa < 2 ^ 64) (he : ExpInRange n.exponent) (hmk : MarkerOk FTy.f32 base n)
+    {fp : ExtendedFloat80} (h : Binary.binary FTy.f32 base n lossy = .ok fp) (hv : 0 ≤ fp.exp) :
+    extendedToFloat FTy.f32 fp =
+      roundNE f32 (powFrac base n.exponent n.mantissa).1 (powFrac base n.exponent n.mantissa).2 :=
+  binary_exact layout_f32 hb n lossy hm he.1 he.2 hmk h hv
+
+/-- `binary` always decides an untruncated mantissa (and everything under `lossy`) -/
+theorem binary_decides {F : FTy} (hF : F = FTy.f64 ∨ F = FTy.f32) {base : Nat} (hb : IsPow2 base) (n : Num)
+    (lossy : Bool) (hm : n.mantissa < 2 ^ 64) (he : ExpInRange n.exponent)
+    (hdec : n.manyDigits = false ∨ lossy = true) :
+    ∃ fp, Binary.binary F base n lossy = .ok fp ∧ 0 ≤ fp.exp := by
+  rcases hF with h | h <;> subst h
+  · exact binary_valid layout_f64 hb n lossy hm he.1 he.2 hdec
+  · exact binary_valid layout_f32 hb n lossy hm he.1 he.2 hdec
+
+/-- the exclusion is needed: negation witness on the model (and on the implementation: op
+`bin f64 202020000000000000000000000000c 9223372036854776832 40000 1 0` answers `ok 8730000000000400 …`) -/
+theorem binary_marker_overflow :
+    Binary.binary FTy.f64 2 ⟨2 ^ 63 + 2 ^ 10, 40000, false, true⟩ false = .ok ⟨2 ^ 63 + 2 ^ 10, 8307⟩ ∧
+    extendedToFloat FTy.f64 ⟨2 ^ 63 + 2 ^ 10, 8307⟩ = 0x8730000000000400 ∧
+    roundNE f64 ((2 ^ 63 + 2 ^ 10) * 2 ^ 40000) 1 = 0x7ff0000000000000 ∧
+    ¬ MarkerOk FTy.f64 2 ⟨2 ^ 63 + 2 ^ 10, 40000, false, true⟩ := binary_marker_overflow_witness
+
+/-- `MarkerOk` holds on the whole range of finite results: `power2 < 32768` -/
+example : MarkerOk FTy.f64 16 ⟨0x8000000000000400, 200, false, true⟩ := by unfold MarkerOk; decide +kernel
+
+/-- non-vacuity of `binary_correct`: a denormal result, a tie to even, an undecided truncated mantissa -/
+example : Binary.binary FTy.f64 2 ⟨3, -1075, false, false⟩ false = .ok ⟨2, 0⟩ ∧
+    Binary.binary FTy.f64 16 ⟨0x20000000000001, 0, false, false⟩ false = .ok ⟨0, 1076⟩ ∧
+    Binary.binary FTy.f64 16 ⟨0x20000000000001, 0, false, true⟩ false = .ok ⟨9223372036854776832, -31703⟩ := by
+  decide +kernel
+
+/-- **`slowBinary_correct` — full statement** (a `Prop`; not proved here): when `binary` could not decide —
+the first `u64_step` significant digits `M` sit exactly half-way above an even significand — `slow_binary`
+returns `roundNE` of the whole literal `(M + 0.d₁d₂…)·base^e`: down to even when every further digit is zero,
+up otherwise. `digits` are digit values `< radix`, most significant first, without leading zeros. -/
+def slowBinary_correct : Prop :=
+  ∀ (F : FTy), (F = FTy.f64 ∨ F = FTy.f32) → ∀ (compact : Bool) (radix : Nat), IsPow2 radix →
+  ∀ (base : Nat), IsPow2 base → ∀ (u64step : Nat), radix ^ u64step ≤ 2 ^ 64 → 2 ^ 64 < radix ^ (u64step + 1) →
+  ∀ (e : Int), ExpInRange e → ∀ (integer : List Nat) (fraction : Option (List Nat)),
+    let bytes := integer ++ fraction.getD []
+    let sig := (bytes.map fun c => Binary.digitVal c radix).dropWhile (· = 0)
+    (∀ d ∈ sig, d < radix) →
+    let val := fun (l : List Nat) => l.foldl (fun acc d => acc * radix + d) 0
+    let first := val (sig.take u64step)
+    (∃ fp, Binary.binary F base ⟨first, e, false, true⟩ false = .ok fp ∧ fp.exp < 0) →
+    MarkerOk F base ⟨first, e, false, true⟩ →
+    extendedToFloat F (Binary.slowBinary F compact radix base u64step e integer fraction) =
+      roundNE F.fmt (powFrac base e (val sig)).1 ((powFrac base e (val sig)).2 * radix ^ (sig.length - u64step))
 
 end LexVerif.Props.C05
